@@ -108,6 +108,42 @@ theorem resize_spec'' (l : List K) (n : Nat) (h : (denote l).degree < n) :
   refine ⟨by simp; omega, ?_⟩
   exact (denote_append_zeros (l.take n) (n - l.length)).trans (denote_take_of_degree_lt _ _ h)
 
+/-! ### the convolution property follows from "ntt = DFT" -/
+
+/-- the first `n` coefficients of a polynomial as a storage -/
+noncomputable def coeffList (q : L[X]) (n : Nat) : List L := List.ofFn (fun i : Fin n => q.coeff i)
+
+theorem length_coeffList (q : L[X]) (n : Nat) : (coeffList q n).length = n := by simp [coeffList]
+
+theorem denote_coeffList (q : L[X]) (n : Nat) (h : q.degree < n) : denote (coeffList q n) = q := by
+  ext i
+  rw [coeff_denote]
+  by_cases hi : i < n
+  · rw [getD_of_lt _ _ _ (by rw [length_coeffList]; exact hi)]
+    simp [coeffList]
+  · rw [getD_of_ge _ _ _ (by rw [length_coeffList]; omega)]
+    symm
+    apply coeff_eq_zero_of_degree_lt
+    exact lt_of_lt_of_le h (by exact_mod_cast (by omega : n ≤ i))
+
+/-- `NttDft` (what property C06 establishes) implies the convolution property used by `fast_reduce` -/
+theorem nttConv_of_nttDft (hN : NttDft N ω) : NttConv N where
+  length_ntt := fun u hu => ntt_length hN u hu
+  conv := by
+    intro u v huv hu hdeg
+    set w := coeffList (denote u * denote v) u.length with hw
+    have hwl : w.length = u.length := length_coeffList _ _
+    have hwd : denote w = denote u * denote v := denote_coeffList _ _ hdeg
+    have hz : List.zipWith (· * ·) (N.ntt u) (N.ntt v) = N.ntt w := by
+      apply List.ext_getElem
+      · rw [List.length_zipWith, ntt_length hN u hu, ntt_length hN v (by rw [← huv]; exact hu),
+          ntt_length hN w (by rw [hwl]; exact hu), hwl, ← huv]; simp
+      · intro i h1 h2
+        rw [List.getElem_zipWith, ntt_getElem hN u hu, ntt_getElem hN v (by rw [← huv]; exact hu),
+          ntt_getElem hN w (by rw [hwl]; exact hu), hwd, hwl, ← huv, eval_mul]
+    rw [hz, hN.intt_ntt w (by rw [hwl]; exact hu)]
+    exact ⟨hwl, hwd⟩
+
 /-! ### `clean_divide` -/
 
 /-- removing the common root 0: never fails for a clean division, and a quotient of the stripped pair is a quotient
